@@ -42,7 +42,7 @@ def run(ctx):
         changed_any = False
         after = r[nb + 1]["arch"]["files"].get(f)
         still_decodable = after is not None and cls in ("hunk", "head", "tail") and after.get("t") in ("hunk", "json") \
-            and kind in ("bitflip", "garbage", "trunchalf")
+            and kind in ("bitflip", "garbage", "trunchalf", "hunkaddr", "tailcount")
         touched = damage.touched_paths(b["arch"], f) if cls in ("hunk", "block") else None
         for band in range(b["nbands"]):
             got, want = probe[idx[("restore", band)]], ref[idx[("restore", band)]]
